@@ -13,22 +13,27 @@ import KafkaVerif.Model.ReaderFront
 import KafkaVerif.Gen.DecoderFacts
 import KafkaVerif.Lemmas.ReaderFront
 import KafkaVerif.Lemmas.ByteLayout
+import KafkaVerif.Lemmas.ReaderLoopLTS
+import KafkaVerif.Lemmas.PullReader
+import KafkaVerif.Lemmas.ReaderWorld
+import KafkaVerif.Lemmas.ReaderSystem
 
 namespace KV.C02
 
 /-! ## R. Regenerated tie: the structural facts of the source the model relies on
 
-`Gen/DecoderFacts.lean` is re-extracted (go/ast, `go/extract/decoder.go`) from message_reader.go, batch.go, conn.go and
+`Gen/DecoderFacts.lean` is re-extracted (go/ast, `go/extract/decoder`; renderings are alpha-normalised: receiver `$r`,
+locals `$1`, `$2`, … — renaming a receiver, parameter or local does not change a fact) from message_reader.go, batch.go, conn.go and
 reader.go of the tree under test on every run; the theorems below compare it with what the model assumes, so an
 edit of one of these places breaks `lake build` (and the theorems of §1–§3 are re-stated for `currentVariant`). -/
 
 /-- which model variant a set of source facts describes -/
 def variantOfFacts (f : Gen.DecoderFacts) : Option Variant :=
   if f.skipEmptyLoop ∧ f.batchEndOnEmpty ∧ f.batchEndOnLast ∧ f.batchEndApplied ∧
-     f.jumpGuard = "errors.Is(batch.err, io.EOF) && batch.msgs.lengthRemain == 0 && batch.lastOffset >= batch.offset" ∧
+     f.jumpGuard = "errors.Is($r.err, io.EOF) && $r.msgs.lengthRemain == 0 && $r.lastOffset >= $r.offset" ∧
      f.oorSeeksConn then some .fixed
   else if !f.skipEmptyLoop ∧ !f.batchEndOnEmpty ∧ !f.batchEndOnLast ∧ !f.batchEndApplied ∧
-     f.jumpGuard = "errors.Is(batch.err, io.EOF) && batch.msgs.lengthRemain == 0 && batch.lastOffset != -1" ∧
+     f.jumpGuard = "errors.Is($r.err, io.EOF) && $r.msgs.lengthRemain == 0 && $r.lastOffset != -1" ∧
      !f.oorSeeksConn then some .legacy
   else none
 
@@ -53,8 +58,24 @@ of ReadMessage compares with the conn offset strictly, `highWaterMark == offset`
 the batch offset into the conn -/
 theorem decoder_statements :
     Gen.decoderFacts.nextOffsetPlus = 1 ∧ Gen.decoderFacts.readerNextOffsetPlus = 1 ∧
-    Gen.decoderFacts.skipBelow = "batch.conn != nil && offset < batch.connOffset()" ∧
+    Gen.decoderFacts.skipBelow = "$r.conn != nil && $1 < $r.connOffset()" ∧
     Gen.decoderFacts.emptyWhenHwmEqOffset = true ∧ Gen.decoderFacts.closeStoresOffset = true := by decide
+
+/-- the facts of `(*reader).run` / `initialize` the loop LTS (Model/ReaderLoopLTS.lean) transcribes: the sentinel values,
+the resolution switch and the seek to the resolved offset, `attempt = 0; offset = start` after a successful initialize,
+`errcount++` at the end of an iteration, and the action of every simple error class of readLoop's switch
+(continue with errcount 0 / close and leave the loop / close and return / sendError and leave the loop) -/
+theorem reader_loop_facts :
+    Gen.decoderFacts.firstOffsetConst = -2 ∧ Gen.decoderFacts.lastOffsetConst = -1 ∧
+    (∀ first last : Int, resolve Gen.decoderFacts.firstOffsetConst first last = first ∧
+                         resolve Gen.decoderFacts.lastOffsetConst first last = last) ∧
+    Gen.decoderFacts.initResolve = "switch { case $1 == FirstOffset: $1 = $2 case $1 == LastOffset: $1 = $3 case $1 < $2: $1 = $2 }" ∧
+    Gen.decoderFacts.initSeeksResolved = true ∧ Gen.decoderFacts.runResetsAttempt = true ∧
+    Gen.decoderFacts.runErrcountInc = true ∧
+    Gen.decoderFacts.loopBranches = "$1 == nil -> errcount=0,continue | errors.Is($1, io.EOF) -> errcount=0,continue | errors.Is($1, io.ErrNoProgress) -> close,break-loop | errors.Is($1, UnknownTopicOrPartition) -> close,break-loop | errors.Is($1, NotLeaderForPartition) -> close,break-loop | errors.Is($1, RequestTimedOut) -> errcount=0,continue | errors.Is($1, OffsetOutOfRange) ->  | errors.Is($1, context.Canceled) -> close,return | errors.Is($1, errUnknownCodec) -> sendError,break-loop | default -> " := by
+  refine ⟨by decide, by decide, ?_, rfl, rfl, rfl, rfl, rfl⟩
+  intro first last
+  constructor <;> simp [resolve, Gen.decoderFacts]
 
 /-! ## 0. The defects of the pinned code (`Variant.legacy`), kept as theorems about the legacy model
 
@@ -160,29 +181,85 @@ example : LWF 0 [.m 1 97 1 60, .w 1 100 90 [(0, 2), (2, 3)], .b2 101 104 false 3
 theorem unsafe_layout_counterexample :
     (readAll .fixed false 8 20 (responseTokens [.m 1 5 1 60, .b2 10 11 false 12 [(0, 2, 12)]] (-1))).2.2 = .desync := by decide
 
-/-- `single_fetch` about **bytes** for the sublanguage "untruncated message set of uncompressed v2 record batches":
-the bytes the reference encoder (`Spec/RecordBatch.lean`) produces for the batches `bs` tokenize
-(`Spec/ByteLayout.tokenizeSet`, proved to invert the encoder: `tokenizeSet_enc`) to a stream on which the decoder
-delivers exactly the stored records at or above `o`.  `crc` is any checksum function below 2³², `dg` any digest of
-the observable record fields. -/
-theorem single_fetch_bytes (crc : Bytes → Nat) (hcrc : ∀ b, crc b < RW.M32) (dg : Spec.RB.FrameV2 → Spec.RB.RecV2 → Nat)
-    (bs : List BBatch) (hframes : ∀ b ∈ bs, b.frame.WF) (nb : Int) (hnb : 0 ≤ nb) (hwf : LWF nb (layoutOf dg bs))
-    (o hwm : Int) (ho : 0 ≤ o) (hne : hwm ≠ o) (expired : Bool) :
-    ∃ toks, tokenizeSet crc dg bs.length (encSetV2 crc bs) = some toks ∧
-      (readAll .fixed expired o hwm toks).1 = (allRecords (layoutOf dg bs)).filter (fun r => o ≤ r.1) ∧
-      (readAll .fixed expired o hwm toks).2.2 ≠ .desync ∧
-      (∀ r ∈ allRecords (layoutOf dg bs), o ≤ r.1 → r.1 < (readAll .fixed expired o hwm toks).2.1 →
-        r ∈ (readAll .fixed expired o hwm toks).1) := by
-  refine ⟨allTokens (layoutOf dg bs), tokenizeSet_enc crc hcrc dg bs hframes _ (Nat.le_refl _), ?_⟩
-  have hsafe : Safe o (layoutOf dg bs) := by
-    apply safe_of_v2
-    intro it hit
-    simp only [layoutOf, List.mem_map] at hit
-    obtain ⟨b, _, rfl⟩ := hit
-    rfl
-  have h := single_fetch (layoutOf dg bs) nb hnb hwf o hwm ho hsafe hne (-1) expired
-  simp only [responseTokens, containedRecords, show ((-1 : Int) < 0) from by decide, if_true] at h
+/-- `single_fetch` about **bytes**, for everything the reference encoder (`Spec/RecordBatch.lean`, the published record
+batch / message set formats) can put into a message set: uncompressed and compressed v2 batches, v0/v1 messages and
+compressed wrappers (`BItem`), in any order, cut at any byte `n`.  The byte-level tokenizer (`Spec/ByteLayout.tokenize`:
+fixed headers when all their bytes are there, a record when its length prefix and body are there, a compressed
+payload / a message body when it is complete, else `cut`; checksums ignored like the Go decoder does) is proved to
+produce exactly the truncated token stream of the layout (`tokenize_items`); on it the decoder delivers exactly the
+stored records at or above `o` that lie completely within the first `n` bytes.
+Parameters: the compression codec as `enc`/`dec` with `dec ∘ enc = id` and non-empty output, checksum functions below
+2³², digests `dg2`/`dg1` of the observable fields. -/
+theorem single_fetch_bytes (c : TokCfg) (enc : Int → Bytes → Bytes) (hdec : ∀ k b, c.dec k (enc k b) = some b)
+    (hpos : ∀ k b, 0 < (enc k b).length) (h1 : ∀ b, c.crcs.ieee b < RW.M32) (h2 : ∀ b, c.crcs.castagnoli b < RW.M32)
+    (its : List BItem) (hitems : ∀ it ∈ its, it.WF c enc) (nb : Int) (hnb : 0 ≤ nb) (hwf : LWF nb (layoutOfItems c enc its))
+    (o hwm : Int) (ho : 0 ≤ o) (hsafe : Safe o (layoutOfItems c enc its)) (hne : hwm ≠ o) (expired : Bool) (n : Nat) :
+    let toks := tokenize c (n + 1) .hdr ((encItems c enc its).take n)
+    (readAll .fixed expired o hwm toks).1 = (contained (layoutOfItems c enc its) n).filter (fun r => o ≤ r.1) ∧
+    (readAll .fixed expired o hwm toks).2.2 ≠ .desync ∧
+    (∀ r ∈ allRecords (layoutOfItems c enc its), o ≤ r.1 → r.1 < (readAll .fixed expired o hwm toks).2.1 →
+      r ∈ (readAll .fixed expired o hwm toks).1) := by
+  have h := single_fetch (layoutOfItems c enc its) nb hnb hwf o hwm ho hsafe hne (n : Int) expired
+  have hc : ¬ ((n : Int) < 0) := by omega
+  simp only [responseTokens, containedRecords, hc, if_false, Int.toNat_natCast] at h
+  simp only [tokenize_items c enc hdec hpos h1 h2 its hitems n (n + 1) (by omega)]
   exact ⟨h.1, h.2.1, h.2.2.1⟩
+
+/-! ### the decoder as the Go code is written (Model/PullReader.lean)
+
+`Pull.readAll` follows message_reader.go / batch.go statement by statement: the reader stack, `readHeader`, the loop over
+empty batches in `readMessage`, `readMessageV2` with the payload push, `markRead` / `unwindStack`, `(*Batch).readMessage`
+with its error switch, the skip loop of `(*Batch).ReadMessage`.  The token machine of Model/MessageSetReader.lean is the
+same computation organised by tokens instead of by calls. -/
+
+/-- `pull_eq_run`: on *any* token stream — v2 batch headers, records, compressed payloads, v0/v1 messages, wrappers, cut, in
+any order, well formed or not (only: a v0/v1 header token carries magic 0 or 1, `allWF`) — whenever the token machine
+does not report a desynchronisation the pull parser returns the same messages, the same conn offset and the same
+outcome.  The proof is a simulation: `Lemmas/PullReader.lean` `Rel` relates the reader stack of the Go code to a position
+of the token machine; `v1_loop` is `readMessageV1`'s `for r.readerStack != nil` loop (skip below `min`, wrapper push,
+pop of exhausted readers), `headerLoop_flat` the loop over empty batches, `call_any` one `(*Batch).readMessage`. -/
+theorem pull_eq_run (e : Bool) (o hwm : Int) (toks : List Tok) (hv : allWF toks)
+    (hnd : (readAll .fixed e o hwm toks).2.2 ≠ .desync) :
+    Pull.readAll e o hwm toks = readAll .fixed e o hwm toks :=
+  pull_eq_run_all e o hwm toks hv hnd
+
+/-- `single_fetch` for the pull parser: on every well-formed layout (v2 batches plain and compressed, v0/v1 messages and
+wrappers, mixed), any cut, any start offset, the code as written delivers exactly the completely contained records at
+or above the start offset, in increasing order, below the new position, and jumps over no stored record -/
+theorem single_fetch_pull (items : List Item) (nb : Int) (hnb : 0 ≤ nb) (hwf : LWF nb items) (o hwm : Int) (ho : 0 ≤ o)
+    (hsafe : Safe o items) (hne : hwm ≠ o) (cut : Int) (expired : Bool) :
+    let res := Pull.readAll expired o hwm (responseTokens items cut)
+    res.1 = (containedRecords items cut).filter (fun r => o ≤ r.1) ∧ res.2.2 ≠ .desync ∧
+    (∀ r ∈ allRecords items, o ≤ r.1 → r.1 < res.2.1 → r ∈ res.1) ∧
+    (∀ r ∈ res.1, r.1 < res.2.1) ∧
+    res.1.Pairwise (fun a b => a.1 < b.1) := by
+  have h := single_fetch items nb hnb hwf o hwm ho hsafe hne cut expired
+  have hv : allWF (responseTokens items cut) := by
+    unfold responseTokens
+    split
+    · exact allWF_tokens items nb hwf
+    · exact allWF_truncate _ _ (allWF_tokens items nb hwf)
+  rw [pull_eq_run expired o hwm _ hv h.2.1]
+  exact h
+
+/-- `single_fetch_bytes` for the pull parser: **bytes in, code as written** — the first `n` bytes of anything the reference
+encoder emits, tokenized, then read by the statement-level model of message_reader.go / batch.go -/
+theorem single_fetch_bytes_pull (c : TokCfg) (enc : Int → Bytes → Bytes) (hdec : ∀ k b, c.dec k (enc k b) = some b)
+    (hpos : ∀ k b, 0 < (enc k b).length) (h1 : ∀ b, c.crcs.ieee b < RW.M32) (h2 : ∀ b, c.crcs.castagnoli b < RW.M32)
+    (its : List BItem) (hitems : ∀ it ∈ its, it.WF c enc) (nb : Int) (hnb : 0 ≤ nb) (hwf : LWF nb (layoutOfItems c enc its))
+    (o hwm : Int) (ho : 0 ≤ o) (hsafe : Safe o (layoutOfItems c enc its)) (hne : hwm ≠ o) (expired : Bool) (n : Nat) :
+    let toks := tokenize c (n + 1) .hdr ((encItems c enc its).take n)
+    (Pull.readAll expired o hwm toks).1 = (contained (layoutOfItems c enc its) n).filter (fun r => o ≤ r.1) ∧
+    (Pull.readAll expired o hwm toks).2.2 ≠ .desync ∧
+    (∀ r ∈ allRecords (layoutOfItems c enc its), o ≤ r.1 → r.1 < (Pull.readAll expired o hwm toks).2.1 →
+      r ∈ (Pull.readAll expired o hwm toks).1) := by
+  have h := single_fetch_bytes c enc hdec hpos h1 h2 its hitems nb hnb hwf o hwm ho hsafe hne expired n
+  have hv : allWF (tokenize c (n + 1) .hdr ((encItems c enc its).take n)) := by
+    rw [tokenize_items c enc hdec hpos h1 h2 its hitems n (n + 1) (by omega)]
+    exact allWF_truncate _ _ (allWF_tokens _ nb hwf)
+  simp only at h ⊢
+  rw [pull_eq_run expired o hwm _ hv h.2.1]
+  exact h
 
 /-- observation (a), not a finding: *outside* the fetch contract — a response cut inside its first v2 batch — the
 records below the start offset that were read and skipped leave the position below it (103 → 102); a later complete
@@ -297,6 +374,173 @@ theorem out_of_range_counterexample :
     onAnswer .legacy { offset := 105, connOpen := true, connOff := 105 } 115 110 115 (.err 1)
       = .go { offset := 110, connOpen := true, connOff := 105 } := by rfl
 
+/-! ### the whole reconnect / backoff loop (Model/ReaderLoopLTS.lean: `rstep`, a total LTS)
+
+Events are the outcomes of the blocking calls of `(*reader).run`: the backoff sleeps (done / context cancelled),
+`initialize` (failed — dial, readOffsets, or Seek out of range — or succeeded with the partition's first/last offsets),
+and one `read`: a fetch round (`data`), a connection lost after a prefix of a response (`cutAfter`), a partition error of
+any code (with what the follow-up `readOffsets` says for OffsetOutOfRange), another I/O error, context.Canceled,
+errUnknownCodec.  `Good` restricts the environment only as far as §1–§2 prove it: a `data` event is a round as
+`fetch_round` describes it, a `cutAfter` event delivers an initial segment of the log from the conn offset
+(`single_fetch` on the bytes that arrived), and a reported first offset is not above a record that still exists. -/
+
+/-- `reader_loop_exactly_once`: for **every** event sequence — any interleaving of faults, retries, reconnects, backoff
+sleeps, leader changes (= failed reads followed by a new initialize), out-of-range resets — what the loop has pushed
+into `r.msgs` is strictly increasing (each record once, in order) and is exactly the stored records between the
+resolved start offset and the loop's `offset` (nothing missing, nothing else). -/
+theorem reader_loop_exactly_once (cfg : RCfg) (log : List Rec) (o0 : Int) (ho : -2 ≤ o0) (es : List REv)
+    (hg : GoodRun cfg log { offset := o0 } es) :
+    let s := rrun cfg { offset := o0 } es
+    s.msgs.Pairwise (fun a b => a.1 < b.1) ∧
+    (s.start = none → s.msgs = []) ∧
+    (∀ st, s.start = some st →
+      (∀ r ∈ s.msgs, r ∈ log ∧ st ≤ r.1 ∧ r.1 < s.offset) ∧ (∀ r ∈ log, st ≤ r.1 → r.1 < s.offset → r ∈ s.msgs)) := by
+  have h := rinv_run cfg log es _ (rinv_init log o0 ho) hg
+  exact ⟨h.sorted, fun h0 => (h.nostart h0).1, fun st hst => ⟨(h.bounds st hst).2.2.1, (h.bounds st hst).2.2.2⟩⟩
+
+/-- `restart_offset`, general form: whenever the loop holds a connection — after any history of faults — that
+connection is positioned (`connOff`) at or after `offset`, everything delivered lies below `offset`, every stored
+record from the start offset below it has been delivered, and no stored record lies between `offset` and the
+connection's position: the next fetch can neither repeat nor skip a record. -/
+theorem restart_offset_general (cfg : RCfg) (log : List Rec) (o0 : Int) (ho : -2 ≤ o0) (es : List REv)
+    (hg : GoodRun cfg log { offset := o0 } es) (hr : (rrun cfg { offset := o0 } es).phase = .reading) :
+    let s := rrun cfg { offset := o0 } es
+    s.offset ≤ s.connOff ∧ (∀ r ∈ s.msgs, r.1 < s.offset) ∧ (∀ r ∈ log, s.offset ≤ r.1 → r.1 < s.connOff → False) := by
+  have h := rinv_run cfg log es _ (rinv_init log o0 ho) hg
+  obtain ⟨hst, h1, h2⟩ := h.conn hr
+  refine ⟨h1, ?_, h2⟩
+  intro r hr'
+  cases hs : (rrun cfg { offset := o0 } es).start with
+  | none => exact absurd hs hst
+  | some st => exact ((h.bounds st hs).2.2.1 r hr').2.2
+
+/-- a successful `initialize` positions the new connection exactly at `offset` (after clamping to the first offset) -/
+theorem initialize_seeks_offset (cfg : RCfg) (s : RR) (first last : Int) (hp : s.phase = .top)
+    (hs : s.attempt = 0 ∨ s.slept = true) (hle : resolve s.offset first last ≤ last) :
+    (rstep cfg s (.initOk first last)).phase = .reading ∧
+    (rstep cfg s (.initOk first last)).connOff = resolve s.offset first last ∧
+    (rstep cfg s (.initOk first last)).offset = resolve s.offset first last := by
+  have hgt : ¬ resolve s.offset first last > last := by omega
+  rcases hs with h | h <;> simp [rstep, hp, h, hgt]
+
+/-- totality: every event is accepted in every state (`rstep` is a function), and a stopped loop stays stopped -/
+theorem reader_loop_stopped (cfg : RCfg) (s : RR) (hp : s.phase = .stopped) (es : List REv) : rrun cfg s es = s := by
+  induction es with
+  | nil => rfl
+  | cons e es ih => simp [rrun, rstep, hp, ih]
+
+/-- the hypotheses are met by a run with a lost connection and a re-initialisation -/
+example : GoodRun {} [(3, 1), (4, 2), (7, 3)] { offset := -2 }
+    [.initOk 3 8, .sleepOk, .data [(3, 1)] 4 .eof, .sleepOk, .cutAfter [(4, 2)], .sleepOk, .initOk 3 8, .sleepOk,
+     .data [(7, 3)] 8 .timedOut] ∧
+    (rrun {} { offset := -2 }
+    [.initOk 3 8, .sleepOk, .data [(3, 1)] 4 .eof, .sleepOk, .cutAfter [(4, 2)], .sleepOk, .initOk 3 8, .sleepOk,
+     .data [(7, 3)] 8 .timedOut]).msgs = [(3, 1), (4, 2), (7, 3)] := by
+  refine ⟨?_, by decide⟩
+  simp only [GoodRun, Good, rstep, toTop, again, pushMsgs, resolve, and_true, true_and]
+  refine ⟨by simp, ⟨⟨by simp, by simp, ?_, by simp⟩, by simp⟩, ⟨by simp, by simp, ?_⟩, by simp, ⟨by simp, by simp, ?_, by simp⟩, by simp⟩
+  · intro r hr; simp at hr ⊢; rcases hr with rfl | rfl | rfl <;> simp
+  · intro r hr x hx; simp at hr hx ⊢; subst hx; rcases hr with rfl | rfl | rfl <;> simp
+  · intro r hr; simp at hr ⊢; rcases hr with rfl | rfl | rfl <;> simp
+
+/-! ### end to end: the loop, the broker, the bytes, the decoder as written
+
+`Model/ReaderWorld.lean` computes the outcomes of the `read` calls instead of assuming them: the partition stores the
+layout `items`; a fetch at conn offset `q` is answered under the fetch contract (`serve`: the items from the one
+containing `q`, the first one whole, then as far as the byte budget reaches) or the connection is lost after any number
+`n` of bytes; what arrives is read by the statement-level model of message_reader.go / batch.go (`Pull.readAll`); the
+result is the event fed to `rstep`.  All other events (sleeps, initialize, partition errors, I/O errors, cancellation)
+stay free.  The one assumption left (`Env.ok`): a first offset reported by the broker is not above a stored record. -/
+
+/-- `reader_end_to_end`: for every well-formed layout (formats 0/1/2, compression, holes, empty batches), every start
+offset and **every** sequence of environment moves — byte budgets, high watermarks, deadline expiries, connections lost
+at any byte, partition errors, reconnects, backoff sleeps — what `(*reader).run` has pushed into `r.msgs` is strictly
+increasing and is exactly the stored records between the resolved start offset and the loop's `offset`. -/
+theorem reader_end_to_end (cfg : RCfg) (items : List Item) (nb : Int) (hnb : 0 ≤ nb) (hwf : LWF nb items) (o0 : Int)
+    (ho : -2 ≤ o0) (xs : List Env) (hx : ∀ x ∈ xs, x.ok items) :
+    let s := worldRun cfg items { offset := o0 } xs
+    s.msgs.Pairwise (fun a b => a.1 < b.1) ∧
+    (s.start = none → s.msgs = []) ∧
+    (∀ st, s.start = some st →
+      (∀ r ∈ s.msgs, r ∈ allRecords items ∧ st ≤ r.1 ∧ r.1 < s.offset) ∧
+      (∀ r ∈ allRecords items, st ≤ r.1 → r.1 < s.offset → r ∈ s.msgs)) := by
+  have h := rinv_world_run cfg items nb hnb hwf xs _ (rinv_init (allRecords items) o0 ho) hx
+  exact ⟨h.sorted, fun h0 => (h.nostart h0).1, fun st hst => ⟨(h.bounds st hst).2.2.1, (h.bounds st hst).2.2.2⟩⟩
+
+/-- … and whenever the loop holds a connection whose position has passed the last stored record, every stored record
+from the start offset on has been delivered (nothing can still be skipped): `offset ≤ connOff` with no stored record
+in between -/
+theorem reader_end_to_end_complete (cfg : RCfg) (items : List Item) (nb : Int) (hnb : 0 ≤ nb) (hwf : LWF nb items) (o0 : Int)
+    (ho : -2 ≤ o0) (xs : List Env) (hx : ∀ x ∈ xs, x.ok items)
+    (hr : (worldRun cfg items { offset := o0 } xs).phase = .reading)
+    (hall : ∀ r ∈ allRecords items, r.1 < (worldRun cfg items { offset := o0 } xs).connOff) :
+    ∀ st, (worldRun cfg items { offset := o0 } xs).start = some st →
+      ∀ r ∈ allRecords items, st ≤ r.1 → r ∈ (worldRun cfg items { offset := o0 } xs).msgs := by
+  have h := rinv_world_run cfg items nb hnb hwf xs _ (rinv_init (allRecords items) o0 ho) hx
+  intro st hst r hrl h1
+  obtain ⟨_, _, hgap⟩ := h.conn hr
+  by_cases hlt : r.1 < (worldRun cfg items { offset := o0 } xs).offset
+  · exact (h.bounds st hst).2.2.2 r hrl h1 hlt
+  · exact absurd (hgap r hrl (by omega) (hall r hrl)) id
+
+/-- one fetch of the loop makes progress: with an open connection, data at or after its position and a high watermark
+different from it, the connection's position moves forward (so finitely many fault-free fetches pass any record) -/
+theorem reader_end_to_end_progress (cfg : RCfg) (items : List Item) (nb : Int) (hnb : 0 ≤ nb) (hwf : LWF nb items) (s : RR)
+    (hp : s.phase = .reading) (hs : s.slept = true) (hq : 0 ≤ s.connOff) (b : Nat) (hwm : Int) (e : Bool)
+    (hne : hwm ≠ s.connOff) (hdata : dropBefore s.connOff items ≠ []) :
+    s.connOff < (rstep cfg s (worldEvent items s (.fetch b hwm e))).connOff :=
+  world_fetch_progress cfg items nb hnb hwf s hp hs hq b hwm e hne hdata
+
+/-- `reader_loop_is_fetcher`: the front model (§4, `fstep`) lets the fetcher started by `SetOffset(o)` enqueue, as its
+`k`-th message, `(feed log o)[k]` — the `k`-th stored record at or above `o`.  The loop does exactly that, end to end:
+started at an absolute offset or at FirstOffset, under every environment, the `k`-th message it pushes into `r.msgs` is
+the `k`-th stored record at or above the start offset.  (For LastOffset the start is whatever the broker reports as
+last offset; `reader_end_to_end` covers it.) -/
+theorem reader_loop_is_fetcher (cfg : RCfg) (items : List Item) (nb : Int) (hnb : 0 ≤ nb) (hwf : LWF nb items) (o0 : Int)
+    (ho : -2 ≤ o0) (hne : o0 ≠ -1) (xs : List Env) (hx : ∀ x ∈ xs, x.ok items) (k : Nat) (r : Rec)
+    (hk : (worldRun cfg items { offset := o0 } xs).msgs[k]? = some r) :
+    (feed (allRecords items) o0)[k]? = some r := by
+  obtain ⟨t, ht⟩ := world_msgs_prefix cfg items nb hnb hwf o0 ho hne xs hx
+  rw [← ht]
+  have hlt : k < (worldRun cfg items { offset := o0 } xs).msgs.length := by
+    rcases Nat.lt_or_ge k (worldRun cfg items { offset := o0 } xs).msgs.length with h | h
+    · exact h
+    · rw [List.getElem?_eq_none h] at hk; cases hk
+  rw [List.getElem?_append_left hlt]
+  exact hk
+
+/-- a run with a connection lost in the middle of a compressed batch and a re-initialisation -/
+example : (worldRun {} [.b2 3 4 false 24 [(0, 1, 12), (1, 2, 12)], .b2 5 9 true 30 [(0, 3, 20), (4, 4, 20)]] { offset := -2 }
+    [.initOk 3 10, .sleepOk, .fetch 10 10 false, .sleepOk, .lost 70 10 false, .sleepOk, .initOk 3 10, .sleepOk,
+     .fetch 1 10 true]).msgs = [(3, 1), (4, 2), (5, 3), (9, 4)] := by decide
+
+/-! ### the executable loop model of the oracle (Model/ReaderLoop.lean `onAnswer`) is this LTS
+
+`toRL` forgets the counters; each broker `Answer` is one event of the LTS. -/
+
+def toRL (s : RR) : RL :=
+  { offset := s.offset, connOpen := s.phase == .reading, connOff := s.connOff, out := s.msgs }
+
+theorem onAnswer_data (cfg : RCfg) (s : RR) (hp : s.phase = .reading) (hs : s.slept = true) (hwm first last : Int)
+    (toks : List Tok) (hok : (readAll .fixed false s.connOff hwm toks).2.2 ≠ .desync) :
+    onAnswer .fixed (toRL s) hwm first last (.data toks)
+      = .go (toRL (rstep cfg s (.data (readAll .fixed false s.connOff hwm toks).1 (readAll .fixed false s.connOff hwm toks).2.1
+          (readAll .fixed false s.connOff hwm toks).2.2))) := by
+  simp only [onAnswer, toRL, rstep, hp, hs, Bool.not_true, Bool.false_eq_true, if_false]
+  cases hoc : (readAll .fixed false s.connOff hwm toks).2.2 <;>
+    simp_all [deliver, pushMsgs, again, toTop] <;>
+    (cases hgl : (readAll .fixed false s.connOff hwm toks).1.getLast? <;> rfl)
+
+theorem onAnswer_faults (cfg : RCfg) (s : RR) (hp : s.phase = .reading) (hs : s.slept = true) (hwm first last : Int) :
+    onAnswer .fixed (toRL s) hwm first last (.err 6) = .go (toRL (rstep cfg s (.kerr 6 none))) ∧
+    onAnswer .fixed (toRL s) hwm first last (.err 3) = .go (toRL (rstep cfg s (.kerr 3 none))) ∧
+    onAnswer .fixed (toRL s) hwm first last (.err 7) = .go (toRL (rstep cfg s (.kerr 7 none))) ∧
+    onAnswer .fixed (toRL s) hwm first last .hang = .go (toRL (rstep cfg s .ioErr)) ∧
+    (s.offset < first →
+      onAnswer .fixed (toRL s) hwm first last (.err 1) = .go (toRL (rstep cfg s (.kerr 1 (some (first, last)))))) := by
+  refine ⟨?_, ?_, ?_, ?_, ?_⟩ <;>
+    simp [onAnswer, toRL, rstep, onKerr, hp, hs, toTop, again] <;> intro h <;> simp [h]
+
 /-! ## 4. The Reader's front (FetchMessage / SetOffset / version tags) -/
 
 theorem dropWhile_filter_head (q : List (Nat × Rec)) (v : Nat) :
@@ -408,5 +652,66 @@ one enqueues; FetchMessage skips the three stale entries -/
 example : (frun [(10, 0), (11, 1), (12, 2), (13, 3)] {}
     [.setOffset 10, .enqueue 1, .enqueue 1, .setOffset 12, .enqueue 1, .enqueue 2, .fetch]).map (·.2) = some [(12, 2)] := by
   decide
+
+
+/-! ## 5. The whole Reader (Model/ReaderSystem.lean)
+
+The front of §4 with, instead of abstract fetchers, one loop of §3 per fetcher ever started, each against the world of
+`Model/ReaderWorld.lean` (broker under the fetch contract, connections lost at any byte, deadlines, partition errors,
+backoff) and the decoder as written; what a loop pushes goes into the queue with the loop's version tag.  Events:
+`SetOffset(o)` (also the lazy start), a blocking call of any fetcher's loop — current or superseded — returning with
+whatever the world does, `FetchMessage`. -/
+
+/-- every reachable state of the system satisfies the invariant the theorems below start from -/
+theorem reader_reachable (cfg : RCfg) (items : List Item) (nb : Int) (hnb : 0 ≤ nb) (hwf : LWF nb items) (es : List CEv)
+    (hok : ∀ e ∈ es, e.ok items) (c : CS) (ms : List Rec) (hr : crun cfg items {} es = some (c, ms)) : CInv items c :=
+  (crun_sim cfg items nb hnb hwf es {} c ms (cinv_init items) hok hr).1
+
+/-- **C02**: in any reachable state of the Reader, after `SetOffset(o)` (an absolute offset or FirstOffset) the
+messages the following `FetchMessage` calls return are — in order, without gap or repetition — the stored records at or
+above `o`: `ms = take |ms| (feed log o)`.  For every well-formed layout of the partition (formats 0/1/2, compression,
+holes, empty batches), every interleaving of FetchMessage with the loops' steps, every behaviour of broker (under the
+fetch contract), network and clock, whatever the superseded fetchers still do and whatever is still queued. -/
+theorem reader_delivers (cfg : RCfg) (items : List Item) (nb : Int) (hnb : 0 ≤ nb) (hwf : LWF nb items) (c0 c' : CS)
+    (h0 : CInv items c0) (o : Int) (ho : -2 ≤ o ∧ o ≠ -1) (es : List CEv) (hok : ∀ e ∈ es, e.ok items)
+    (hns : ∀ e ∈ es, e.notSet) (ms : List Rec) (hr : crun cfg items c0 (.setOffset o :: es) = some (c', ms)) :
+    ms = (feed (allRecords items) o).take ms.length := by
+  obtain ⟨es', hn, hf⟩ := crun_after_set cfg items nb hnb hwf c0 c' h0 o ho es hok hns ms hr
+  exact setoffset_delivers (allRecords items) c0.fs c'.fs h0.finv o es' hn ms hf
+
+/-- … from the very start: a Reader configured with start offset `o` -/
+theorem reader_delivers_from_start (cfg : RCfg) (items : List Item) (nb : Int) (hnb : 0 ≤ nb) (hwf : LWF nb items) (c' : CS)
+    (o : Int) (ho : -2 ≤ o ∧ o ≠ -1) (es : List CEv) (hok : ∀ e ∈ es, e.ok items) (hns : ∀ e ∈ es, e.notSet)
+    (ms : List Rec) (hr : crun cfg items {} (.setOffset o :: es) = some (c', ms)) :
+    ms = (feed (allRecords items) o).take ms.length :=
+  reader_delivers cfg items nb hnb hwf {} c' (cinv_init items) o ho es hok hns ms hr
+
+/-- a run of the whole system: start at FirstOffset, a fetch round, SetOffset(5) while two messages are queued, the
+superseded loop still pushes a round, the new one starts inside the compressed batch; FetchMessage returns 5, 9 -/
+example : (crun {} [.b2 3 4 false 24 [(0, 1, 12), (1, 2, 12)], .b2 5 9 true 30 [(0, 3, 20), (4, 4, 20)]] {}
+    [.setOffset (-2), .env 1 (.initOk 3 10), .env 1 .sleepOk, .env 1 (.fetch 10 10 false), .setOffset 5,
+     .env 1 .sleepOk, .env 1 (.fetch 1000 10 false), .env 2 (.initOk 3 10), .env 2 .sleepOk, .env 2 (.fetch 10 10 true),
+     .fetch, .fetch]).map (·.2) = some [(5, 3), (9, 4)] := by decide
+
+
+/-- **the sequential specification of the Reader's API** (`astep`: `Offset()` is `pos`; `SetOffset(o)` does nothing when
+`o == Offset()`, else moves `Offset()` and — if a fetcher was ever started — restarts; `FetchMessage` lazily starts the
+first fetcher at `Offset()`): in every reachable state, whatever the loops, the broker, the network and the superseded
+fetchers have done and do,
+* `FetchMessage` returns **the first stored record at or above `Offset()`**, and `Offset()` becomes its offset + 1;
+* `SetOffset(o)` makes `Offset() = o`, a step of a loop leaves it alone.
+Exactly-once, in-order, gap-free delivery from the position is the iteration of the first clause. -/
+theorem reader_api (cfg : RCfg) (items : List Item) (nb : Int) (hnb : 0 ≤ nb) (hwf : LWF nb items) (o : Int)
+    (ho : -2 ≤ o ∧ o ≠ -1) (es : List AEv) (hok : ∀ e ∈ es, e.ok items) (a : AS) (ms : List Rec)
+    (hr : arun cfg items { pos := o } es = some (a, ms)) (e : AEv) (he : e.ok items) (a' : AS) (m : Option Rec)
+    (hs : astep cfg items a e = some (a', m)) : ASpec items a e a' m :=
+  (astep_inv cfg items nb hnb hwf (arun_inv cfg items nb hnb hwf es _ a ms (ainv_init items o ho) hok hr) he hs).2
+
+/-- a run of the API: lazy start at FirstOffset, two messages, a no-op SetOffset(5) (= Offset()), SetOffset(9), the last
+message -/
+example : (arun {} [.b2 3 4 false 24 [(0, 1, 12), (1, 2, 12)], .b2 5 9 true 30 [(0, 3, 20), (4, 4, 20)]] { pos := -2 }
+    [.fetch, .env 1 (.initOk 3 10), .env 1 .sleepOk, .env 1 (.fetch 10 10 false), .fetch, .fetch, .setOffset 5,
+     .env 1 .sleepOk, .env 1 (.fetch 1000 10 false), .setOffset 9, .env 2 (.initOk 3 10), .env 2 .sleepOk,
+     .env 2 (.fetch 10 10 true), .fetch]).map (fun p => (p.2, p.1.pos)) = some ([(3, 1), (4, 2), (9, 4)], 10) := by decide
 
 end KV.C02
